@@ -253,18 +253,41 @@ fn painter_case(rng: &mut Rng, rep: &mut Report) {
     };
     let zbuf = run(Some(Ordering::Less), None);
     let paint = run(None, Some(DepthSort::BackToFront));
+    // pixels that one triangle's own clip fan draws twice (internal fan
+    // edge, inside C04's band): "last own fragment" (painter) and "nearest
+    // own fragment" (depth buffer) may differ there by rounding — excluded
+    let mut multi = vec![false; (w * h) as usize];
+    for t in &tris {
+        let counts = std::cell::RefCell::new(vec![0u8; (w * h) as usize]);
+        let counting = |f: re::render::raster::Frag<f32>| {
+            let i = f.pos.y() as usize * w as usize + f.pos.x() as usize;
+            if let Some(c) = counts.borrow_mut().get_mut(i) {
+                *c = c.saturating_add(1);
+            }
+            Some(super::scene::pack(0))
+        };
+        let ctx = Context { face_cull: None, depth_sort: None, depth_test: None, ..Context::default() };
+        let mut cv = Canvas::new(w, h, (0, 0, w, h), |_, _| COL_SENT, |_, _| 0.0);
+        if render_view(&verts, &[*t], &proj, counting, &ctx, to_screen, &mut cv, Tk::FbOwned).is_err() {
+            rep.violation("render.panic", "render() panicked".into(), cj());
+            return;
+        }
+        for (m, c) in multi.iter_mut().zip(counts.borrow().iter()) {
+            *m |= *c > 1;
+        }
+    }
+    rep.add("painter.pixels_excluded_drawn_twice_by_own_clip_fan", multi.iter().filter(|m| **m).count() as u64);
     match (zbuf, paint) {
         (Ok(a), Ok(b)) => {
             let drawn = a.0.iter().filter(|c| **c != COL_SENT).count();
             rep.add("painter.pixels_compared", drawn as u64);
-            if a.0 != b.0 {
-                let p = a.0.iter().zip(&b.0).position(|(x, y)| x != y).unwrap();
+            if let Some(p) = (0..a.0.len()).find(|&p| !multi[p] && a.0[p] != b.0[p]) {
                 rep.violation(
                     "order.painter_differs_from_depth_buffer",
                     format!("disjoint depth ranges: depth test off + BackToFront gives colour {:#x} at pixel ({},{}) but the depth-buffered image has {:#x}", b.0[p], p as u32 % w, p as u32 / w, a.0[p]),
                     cj(),
                 );
-            } else if a.1 != b.1 {
+            } else if (0..a.1.len()).any(|p| !multi[p] && a.1[p] != b.1[p]) {
                 rep.count("painter.depth_buffers_differ(informational)");
             }
         }
